@@ -981,25 +981,38 @@ fn c01_ops(h: &mut LeanString, m: &mut String, op: usize, idx: usize) -> Result<
 const C01_OPS: usize = 14;
 
 pub fn c01_sweep(cx: &SweepCtx, quick: bool, threads: usize) {
+    c01_sweep_as(cx, "C01", quick, None, threads)
+}
+
+/// `prop`: the property the violations are filed under (C20 runs this sweep hosted by Miri for
+/// other targets, where "behaves like String" is part of "behaves the same everywhere");
+/// `hosted`: the reduced text set of an interpreted run, of which this process takes the texts
+/// with index = k (mod n).
+pub fn c01_sweep_as(cx: &SweepCtx, prop: &'static str, quick: bool, hosted: Option<(usize, usize)>, threads: usize) {
+    let part = hosted;
+    let hosted = hosted.is_some();
     let mut texts_: Vec<String> = Vec::new();
-    for b in 0u8..=0x7F {
+    for b in (0u8..=0x7F).filter(|b| !hosted || b % 32 == 1) {
         texts_.push(format!("{}{}", ascii(INLINE - 1), b as char));
     }
-    for b in 0x80u8..=0xBF {
+    for b in (0x80u8..=0xBF).filter(|b| !hosted || b % 32 == 1) {
         for tail in [vec![0xC3, b], vec![0xE1, 0x80, b], vec![0xF1, 0x80, 0x80, b]] {
             let tail = String::from_utf8(tail).unwrap();
             texts_.push(format!("{}{tail}", ascii(INLINE - tail.len())));
         }
     }
     let n_inline = texts_.len();
-    let mut lens = vec![63usize, 64, 65, 255, 256, 257, 4095, 4096, 4097];
-    if !quick {
+    let mut lens = if hosted { vec![255usize, 256, 257, 4096] } else { vec![63usize, 64, 65, 255, 256, 257, 4095, 4096, 4097] };
+    if !quick && !hosted {
         lens.extend([65535, 65536, 65537, (1 << 20) + 1]);
     }
     for n in lens {
         texts_.push(long_text(n));
     }
-    par_for_guarded(cx, "C01", texts_.len(), threads, |ti| {
+    par_for_guarded(cx, prop, texts_.len(), threads, |ti| {
+        if part.is_some_and(|(k, n)| ti % n != k) {
+            return;
+        }
         let t = &texts_[ti];
         cx.trace(&format!("C01 sweep on a {}-byte text", t.len()));
         let idxs: Vec<usize> = {
@@ -1034,21 +1047,21 @@ pub fn c01_sweep(cx: &SweepCtx, quick: bool, threads: usize) {
                     let mut out = Vec::new();
                     match r {
                         Ok(true) => {}
-                        Ok(false) => out.push(Viol { prop: "C01", oracle: "return-value", detail: format!("{desc}: returned value differs from String's") }),
-                        Err(e) => out.push(Viol { prop: "C01", oracle: "outcome", detail: format!("{desc}: {e}") }),
+                        Ok(false) => out.push(Viol { prop, oracle: "return-value", detail: format!("{desc}: returned value differs from String's") }),
+                        Err(e) => out.push(Viol { prop, oracle: "outcome", detail: format!("{desc}: {e}") }),
                     }
                     if b.s.as_bytes() != m.as_bytes() || b.s.len() != m.len() || b.s.is_empty() != m.is_empty() {
                         let show = |x: &[u8]| String::from_utf8_lossy(&x[..x.len().min(40)]).into_owned();
-                        out.push(Viol { prop: "C01", oracle: "text", detail: format!("{desc}: reads {:?}.. (len {}), String holds {:?}.. (len {})", show(b.s.as_bytes()), b.s.len(), show(m.as_bytes()), m.len()) });
+                        out.push(Viol { prop, oracle: "text", detail: format!("{desc}: reads {:?}.. (len {}), String holds {:?}.. (len {})", show(b.s.as_bytes()), b.s.len(), show(m.as_bytes()), m.len()) });
                     }
                     for (s0, s1) in sib.iter().zip(b.siblings.iter()) {
                         if s0 != s1.as_bytes() {
-                            out.push(Viol { prop: "C01", oracle: "sibling-text", detail: format!("{desc}: a string sharing the buffer changed") });
+                            out.push(Viol { prop, oracle: "sibling-text", detail: format!("{desc}: a string sharing the buffer changed") });
                         }
                     }
                     let errs = shim::with(|s| s.errors.first().cloned().or(s.audit().first().cloned()));
                     if let Some(e) = errs {
-                        out.push(Viol { prop: "C01", oracle: "heap", detail: format!("{desc}: {e}") });
+                        out.push(Viol { prop, oracle: "heap", detail: format!("{desc}: {e}") });
                     }
                     cx.report(&out, "op-sweep", &format!("{st:?}"), &desc);
                 }
